@@ -3,10 +3,12 @@
 pub mod c02;
 pub mod c03;
 pub mod c05;
+pub mod c08;
 pub mod c09;
 pub mod c10;
 pub mod c13;
 pub mod c14;
+pub mod c15;
 pub mod c16;
 pub mod c17;
 pub mod c18;
@@ -19,10 +21,12 @@ pub fn run(args: &Args) -> Report {
         "C03" => c03::run(args),
         "C05" => c05::run(args),
         "C06" => c05::run_c06(args),
+        "C08" => c08::run(args),
         "C09" => c09::run(args),
         "C10" => c10::run(args),
         "C13" => c13::run(args),
         "C14" => c14::run(args),
+        "C15" => c15::run(args),
         "C16" => c16::run(args),
         "C17" => c17::run(args),
         "C18" => c18::run(args),
